@@ -135,8 +135,9 @@ def cmd_check(prop_id, tier):
             known_hit.setdefault(o.key, []).append(o)
         else:
             viol.append(o)
+    nested = bool(os.environ.get("CB_NO_EVIDENCE"))
     # reports
-    rdir = os.path.join(VERIF, "reports", prop_id)
+    rdir = os.path.join(VERIF, "reports", prop_id if not nested else prop_id + "-seeded")
     os.makedirs(rdir, exist_ok=True)
     for f in glob.glob(os.path.join(rdir, "*.json")):
         os.remove(f)
@@ -201,21 +202,78 @@ def cmd_check(prop_id, tier):
     if level == "translation_validation":
         cov.update({"programs": extra.get("programs", 0), "disagreements_checked": extra.get("disagreements_checked", 0)})
     cov.update({k: v for k, v in extra.items() if k not in cov})
+    if tier == "thorough" and not nested:
+        sr = seeded_replay(prop_id)
+        cov.update(sr)
+        print("  seeded self-test: %d kept change(s) expected to trip this check, %d replayed on a scratch copy, %d detected%s%s" % (
+            sr["seeded_total"], sr["seeded_replayed"], sr["seeded_killed"],
+            (", skipped " + ",".join(sr["seeded_skipped"])) if sr["seeded_skipped"] else "",
+            (", MISSED " + ",".join(sr["seeded_missed"])) if sr["seeded_missed"] else ""))
+        for nm in sr["seeded_missed"]:
+            print("SELFTEST-MISS property=%s seeded=%s (the check did not fire on a change known to break the property)" % (prop_id, nm))
     ev = {
         "property_id": prop_id, "tier": tier, "seed": seed, "level": level, "coverage": cov,
         "assumptions": spec.get("assumptions", []) + ctx.assumptions,
         "wall_s": round(wall, 2), "violations": len(lines),
     }
-    os.makedirs(os.path.join(VERIF, "evidence"), exist_ok=True)
-    evp = os.path.join(VERIF, "evidence", "%s.json" % prop_id)
-    with open(evp + ".tmp", "w") as fh:
-        json.dump(ev, fh, indent=1)
-    os.rename(evp + ".tmp", evp)
+    if not nested:
+        ev["wall_s"] = round(time.time() - t0, 2)
+        os.makedirs(os.path.join(VERIF, "evidence"), exist_ok=True)
+        evp = os.path.join(VERIF, "evidence", "%s.json" % prop_id)
+        with open(evp + ".tmp", "w") as fh:
+            json.dump(ev, fh, indent=1)
+        os.rename(evp + ".tmp", evp)
     print("%s %s: %d lemma instances, %d hold, %d known findings, %d violations, %.1fs" % (
         prop_id, tier, total, okc, len(known_hit), len(lines), wall))
     for l in lines:
         print(l)
     return 1 if lines else 0
+
+
+def seeded_replay(prop_id, max_n=4):
+    """Thorough tier: apply each kept seeded change that is expected to make this check fire to a scratch copy of the
+    current tree and require the (quick) check to report a violation there.  Returns a dict for the evidence."""
+    import tempfile, shutil
+    seeds = []
+    sd = os.path.join(VERIF, "seeded")
+    if os.path.isdir(sd):
+        for name in sorted(os.listdir(sd)):
+            mp = os.path.join(sd, name, "meta.json")
+            pp = os.path.join(sd, name, "patch.diff")
+            if os.path.exists(mp) and os.path.exists(pp):
+                meta = json.load(open(mp))
+                if prop_id in meta.get("expected_to_fire", []):
+                    seeds.append((name, pp))
+    res = {"seeded_total": len(seeds), "seeded_replayed": 0, "seeded_killed": 0, "seeded_skipped": [], "seeded_missed": [], "seeded_details": []}
+    for name, pp in seeds[:max_n]:
+        tmp = tempfile.mkdtemp(prefix="cbseed-")
+        try:
+            for f in ("src", "tests", "Cargo.toml", "Cargo.lock", "README.md"):
+                sp = os.path.join(REPO, f)
+                if os.path.isdir(sp):
+                    shutil.copytree(sp, os.path.join(tmp, f))
+                elif os.path.exists(sp):
+                    shutil.copy(sp, os.path.join(tmp, f))
+            r = subprocess.run(["patch", "-p1", "-s", "-i", pp], cwd=tmp, capture_output=True, text=True)
+            if r.returncode != 0:
+                res["seeded_skipped"].append(name)
+                res["seeded_details"].append({"seed": name, "result": "patch does not apply to the current tree (skipped)"})
+                continue
+            env = dict(os.environ)
+            env["CB_REPO"] = tmp
+            env["CB_NO_EVIDENCE"] = "1"
+            r = subprocess.run([sys.executable, os.path.abspath(__file__), "check", prop_id, "--tier", "quick"], capture_output=True, text=True, env=env)
+            res["seeded_replayed"] += 1
+            fails = [l for l in r.stdout.split("\n") if l.startswith("FAIL ")]
+            if r.returncode == 1 and fails:
+                res["seeded_killed"] += 1
+                res["seeded_details"].append({"seed": name, "result": "check fires", "first_report": fails[0][:200]})
+            else:
+                res["seeded_missed"].append(name)
+                res["seeded_details"].append({"seed": name, "result": "NOT detected (exit %d)" % r.returncode})
+        finally:
+            shutil.rmtree(tmp, ignore_errors=True)
+    return res
 
 
 def cmd_show(path):
